@@ -413,6 +413,14 @@ def matmul(interp: Any, a: V, b: V, st: State, node: ast.AST | None) -> V:
     batch = broadcast_shapes([sa[:-2], sb[:-2]], st, node, "matmul batch")
     out = batch + (() if va else (sa[-2],)) + (() if vb else (sb[-1],))
     la, lb = lays(a), lays(b)
+    sink = getattr(interp, "pairings", None)
+    if sink is not None:
+        ca = la[-1]
+        cb = lb[-2] if len(lb) >= 2 else lb[-1]
+        m, conflict = L.merge([ca, cb])
+        if conflict:
+            raise ShapeError(f"matmul: the contracted axes hold {conflict}", node)
+        sink.append(("@", [ca, cb]))
     nb = len(batch)
     bl_a = ([None] * nb + la[:-2])[-nb:] if nb else []
     bl_b = ([None] * nb + lb[:-2])[-nb:] if nb else []
@@ -700,6 +708,14 @@ def tensor_op(interp: Any, op: str, args: list[V], kwargs: dict[str, V], st: Sta
         d = getd(args[0], st) if args else None
         return TensorV((d, d)) if d is not None else unk("eye")
     if op == "einsum":
+        if args and isinstance(args[0], TensorV):
+            # interleaved form: einsum(op1, sublist1, op2, sublist2, ..., [sublist_out])
+            opnds = list(args[0::2])
+            subs = list(args[1::2])
+            if len(args) % 2 == 1:
+                out_sub, opnds = opnds[-1], opnds[:-1]
+                return do_einsum(interp, TupleV(tuple(subs) + (out_sub,)), opnds, st, node)
+            return unk("einsum without output sublist")
         return do_einsum(interp, args[0], args[1:], st, node) if args else unk("einsum")
     if op == "vmap":
         ind = kwargs.get("in_dims", args[1] if len(args) > 1 else mkint(0))
@@ -1334,6 +1350,44 @@ def model_op(interp: Any, name: str, bound: V | None, args: list[V], kwargs: dic
             return
         yield interp.unk("Parameter." + meth), st
         return
+    if cls == "TorchParameter":
+        # torch-side parameter graphs: the composed parameter is the tensor its last node returns
+        if meth == "from_input" and len(args) == 1 and isinstance(args[0], ParamV):
+            yield args[0], st
+            return
+        if meth in ("from_unary", "from_binary", "from_nary", "from_sequence") and args:
+            if meth == "from_sequence":
+                ops, operands = list(args[1:]), [args[0]]
+            else:
+                ops, operands = [args[0]], list(args[1:])
+            cur: list[V] = []
+            s_ = st
+            for o in operands:
+                outs = list(interp.apply(o, [], {}, s_, fr, node)) if isinstance(o, ParamV) else []
+                if len(outs) != 1 or not isinstance(outs[0][0], TensorV):
+                    yield interp.unk("TorchParameter composition with an unresolved operand"), st
+                    return
+                cur.append(outs[0][0])
+                s_ = outs[0][1]
+            for op in ops:
+                if not isinstance(op, ObjV):
+                    yield interp.unk("TorchParameter composition with an unknown node"), st
+                    return
+                f = interp.repo.lookup(op.cls, "forward")
+                outs = list(interp.call(f, cur, {}, s_, selfv=op, depth=fr.depth + 1)) if f is not None else []
+                outs = [(v, s2) for v, s2 in outs if isinstance(v, TensorV)]
+                if len(outs) != 1:
+                    yield interp.unk("TorchParameter composition: node forward unresolved"), st
+                    return
+                cur, s_ = [outs[0][0]], outs[0][1]
+            t = cur[0]
+            assert isinstance(t, TensorV)
+            pv = new_param(s_, meth, TupleV(tuple(IntV(d) for d in t.shape[1:])), t.shape[0] if t.shape else Dim.const(1))
+            s_.heap[pv.pid]["tensor"] = t
+            yield pv, s_
+            return
+        yield interp.unk("TorchParameter." + meth), st
+        return
     if cls == "CircuitBlock":
         if meth == "from_layer" and args:
             yield args[0], st
@@ -1416,8 +1470,25 @@ def lib_op(interp: Any, name: str, args: list[V], kwargs: dict[str, V], st: Stat
     if name in ("numpy.log", "numpy.exp", "numpy.sqrt", "math.log", "math.exp", "math.sqrt", "math.lgamma", "numpy.pi", "math.pi"):
         yield FloatV(None), st
         return
-    if name == "itertools.chain.from_iterable" or name == "itertools.chain":
-        yield interp.unk(name), st
+    if name == "itertools.chain.from_iterable" and len(args) == 1:
+        outer = seq_items(args[0])
+        if outer is not None and all(seq_items(x) is not None for x in outer):
+            yield TupleV(tuple(y for x in outer for y in seq_items(x)), "gen"), st  # type: ignore[union-attr]
+        else:
+            yield interp.unk(name), st
+        return
+    if name == "itertools.chain":
+        if all(seq_items(x) is not None for x in args):
+            yield TupleV(tuple(y for x in args for y in seq_items(x)), "gen"), st  # type: ignore[union-attr]
+        else:
+            yield interp.unk(name), st
+        return
+    if name == "itertools.product" and len(args) == 2 and not kwargs:
+        a, b = seq_items(args[0]), seq_items(args[1])
+        if a is not None and b is not None and len(a) * len(b) <= 64:
+            yield TupleV(tuple(TupleV((x, y)) for x in a for y in b), "list"), st
+        else:
+            yield interp.unk(name), st
         return
     yield interp.unk(name), st
 
